@@ -1,6 +1,8 @@
 package main
 
 import (
+	"time"
+	"runtime"
 	"os"
 	"fmt"
 	"sort"
@@ -26,10 +28,12 @@ type sched struct {
 	done    [2]chan struct{}
 	trace   []string // "<who>:<label>" in execution order
 	enabled bool
+	threads map[string]int // goroutine id -> thread (0: the API request, 1: the poller)
+	blocked int            // how often the scheduled thread was found waiting for a lock
 }
 
 func newSched() *sched {
-	s := &sched{}
+	s := &sched{threads: map[string]int{}}
 	for i := 0; i < 2; i++ {
 		s.req[i] = make(chan string)
 		s.grant[i] = make(chan struct{})
@@ -42,7 +46,17 @@ func newSched() *sched {
 type schedState struct {
 	state.State
 	s   *sched
-	who int
+	who int // unused (one node, one service provider: the thread is identified by its goroutine)
+}
+
+func goid() string {
+	var buf [64]byte
+	n := runtime.Stack(buf[:], false)
+	f := strings.Fields(string(buf[:n]))
+	if len(f) >= 2 {
+		return f[1]
+	}
+	return "?"
 }
 
 // point blocks until the scheduler grants the call; the returned function reports its completion
@@ -50,9 +64,15 @@ func (w schedState) point(label string) func() {
 	if !w.s.enabled {
 		return func() {}
 	}
-	w.s.req[w.who] <- label
-	<-w.s.grant[w.who]
-	return func() { w.s.ack[w.who] <- struct{}{} }
+	w.s.mu.Lock()
+	who, ok := w.s.threads[goid()]
+	w.s.mu.Unlock()
+	if !ok {
+		return func() {} // a call from outside the two scheduled threads
+	}
+	w.s.req[who] <- label
+	<-w.s.grant[who]
+	return func() { w.s.ack[who] <- struct{}{} }
 }
 func (w schedState) Get(key string) ([]byte, error) {
 	defer w.point("Get " + strings.TrimPrefix(keyLabel(key), "Set "))()
@@ -73,10 +93,16 @@ func (s *sched) run(schedule []int, fa, fb func()) []string {
 	s.enabled = true
 	fs := [2]func(){fa, fb}
 	for i := 0; i < 2; i++ {
+		started := make(chan struct{})
 		go func(i int) {
 			defer close(s.done[i])
+			s.mu.Lock()
+			s.threads[goid()] = i
+			s.mu.Unlock()
+			close(started)
 			fs[i]()
 		}(i)
+		<-started
 	}
 	finished := [2]bool{}
 	step := 0
@@ -98,6 +124,27 @@ func (s *sched) run(schedule []int, fa, fb func()) []string {
 			step++
 		case <-s.done[who]:
 			finished[who] = true
+		case <-time.After(40 * time.Millisecond):
+			// the scheduled thread makes no store call: it waits for a lock the other one holds
+			// (or is just slow - then the other one goes first, which is an interleaving too)
+			other := 1 - who
+			if finished[other] {
+				continue
+			}
+			s.blocked++
+			select {
+			case label := <-s.req[other]:
+				s.trace = append(s.trace, fmt.Sprintf("%d:%s", other, label))
+				s.grant[other] <- struct{}{}
+				<-s.ack[other]
+			case <-s.done[other]:
+				finished[other] = true
+			case label := <-s.req[who]:
+				s.trace = append(s.trace, fmt.Sprintf("%d:%s", who, label))
+				s.grant[who] <- struct{}{}
+				<-s.ack[who]
+				step++
+			}
 		}
 	}
 	s.enabled = false
@@ -226,8 +273,10 @@ func scenarioC14(c *Ctx) {
 			e := base.Fork(newEnvDir(c))
 			defer e.Close()
 			s := newSched()
+			// ONE node and one service provider, as in the daemon: the API handlers and the poller share
+			// the repositories and the node's locks
 			na := e.buildNode(schedState{e.St, s, 0}, e.Board)
-			nb := e.buildNode(schedState{e.St, s, 1}, e.Board)
+			nb := na
 			var errA, errB error
 			fa := func() { errA = na.ProcessOperation(mkRes()) }
 			if p.approve {
